@@ -146,6 +146,11 @@ inline void hand_written(std::vector<Built>& out) {
     { IPv6 i = ip6(); i.add_header(IPv6::ext_header(IPv6::HOP_BY_HOP, 6, pattern(6).data())); addc(out, "eth/ipv6[hbh6]/udp", eth() / i / UDP(1, 2)); }
     { IPv6 i = ip6(); i.add_header(IPv6::ext_header(IPv6::DESTINATION_ROUTING_OPTIONS, 14, pattern(14).data())); i.add_header(IPv6::ext_header(IPv6::ROUTING, 6, pattern(6).data()));
       addc(out, "eth/ipv6[dst14,rt6]/tcp", eth() / i / TCP(1, 2)); }
+    // three and four extension headers of different types: every link of the next-header chain names a different successor
+    { IPv6 i = ip6(); i.add_header(IPv6::ext_header(IPv6::HOP_BY_HOP, 6, pattern(6).data())); i.add_header(IPv6::ext_header(IPv6::ROUTING, 6, pattern(6).data()));
+      i.add_header(IPv6::ext_header(IPv6::DESTINATION_ROUTING_OPTIONS, 14, pattern(14).data())); addc(out, "eth/ipv6[hbh,rt,dst]/tcp", eth() / i / TCP(1, 2)); }
+    { IPv6 i = ip6(); Bytes fr = {0, 0, 0, 0, 0, 1}; i.add_header(IPv6::ext_header(IPv6::HOP_BY_HOP, 6, pattern(6).data())); i.add_header(IPv6::ext_header(IPv6::DESTINATION_ROUTING_OPTIONS, 6, pattern(6).data()));
+      i.add_header(IPv6::ext_header(IPv6::ROUTING, 22, pattern(22).data())); i.add_header(IPv6::ext_header(IPv6::FRAGMENT, 6, fr.data())); addc(out, "eth/ipv6[hbh,dst,rt,frag]/udp", eth() / i / UDP(1, 2) / RawPDU(pattern(5))); }
     { IPv6 i = ip6(); Bytes fr = {0, 8, 0, 0, 0, 1}; i.add_header(IPv6::ext_header(IPv6::FRAGMENT, 6, fr.data())); addc(out, "eth/ipv6[frag]/raw", eth() / i / RawPDU(pattern(8))); }
     addc(out, "eth/ipv6/ah/tcp", eth() / ip6() / IPSecAH() / TCP(1, 2));
     { IPSecAH ah; ah.spi(0x11223344); ah.seq_number(5); ah.icv(pattern(12)); addc(out, "eth/ip/ah(icv12)/udp/raw", eth() / ip4() / ah / UDP(1, 2) / RawPDU(pattern(3))); }
